@@ -197,6 +197,11 @@ func w1GenProp(r *rand.Rand, c *simrt.Case, nclients, maxOps int, prop, tier str
 		if r.IntN(2) == 0 {
 			c.Program = append(c.Program, simrt.Op{Actor: 100, Kind: "crash"})
 		}
+		if r.IntN(3) == 0 {
+			// segment or index uploads fail while fetchers read the batches of the flush in flight: the
+			// failure path (requeue, reset of the in-flight state) runs next to readers
+			w1S3WriteFaults(r, c, 1+r.IntN(3))
+		}
 		nf := 2 + r.IntN(4)
 		for f := 0; f < nf; f++ {
 			for i := 0; i < 1+r.IntN(4); i++ {
